@@ -57,13 +57,14 @@ func main() {
 		var result string
 		if lines/numNodes == 0 {
 			var i uint64 = 1
-			for ; i < lines; i++ {
-				if i == lines-1 {
+			for ; i <= lines; i++ {
+				if i == lines {
 					result += fmt.Sprintf("%d-%d", i, i)
 				} else {
 					result += fmt.Sprintf("%d-%d ", i, i)
 				}
 			}
+			fmt.Print(result)
 		} else {
 			sizePerSlice := lines / numNodes
 			rest := lines % numNodes
@@ -122,7 +123,7 @@ func lineCounter(r io.Reader) (uint64, error) {
 					distance = distanceCarryForward + index + 1
 					distanceCarryForward = 0
 					if index > 0 {
-						prevNotCarageReturn = buf[index-1] != '\r'
+						prevNotCarageReturn = buf[startIndex+index-1] != '\r'
 					}
 					if (distance > 1 && prevNotCarageReturn) || (distance > 2 && !prevNotCarageReturn) {
 						count++
